@@ -143,6 +143,21 @@ def run(chk, only=None):
                 if not (cur <= newcur < n) and fn != "backtrack" or newcur >= n:
                     bad.append((0, t, "plain", "token-cursor-out-of-range:" + fn, a))
             dist["token_cursor_cases"] = len(reqs)
+            # the nesting counter: n blocks one inside the other in a function body are n + 1 DepthControl guards; the declared error must come
+            # exactly when the model's counter (depth_run, MAX_DEPTH_OF_STMTS read from the source) says so
+            mx = int(re.search(r"#define\s+MAX_DEPTH_OF_STMTS\s+(\d+)", open(os.path.join(pv.REPO, "C/parser/Parser__IMPL__.inc")).read()).group(1))
+            ns = list(range(mx - 6, mx + 8)) + [mx + 50, 3 * mx]
+            texts = [("void f(){" + "{" * n + "}" * n + "}").encode() for n in ns]
+            im = pv.run_impl(["total 0 2:1:0:0:2 " + t.hex() for t in texts], shards=4)
+            mo = pv.run_model("C01", ["5 %d %d" % (mx, n + 1) for n in ns])
+            for n, t, a, m in zip(ns, texts, im, mo):
+                want_limit = bool(m) and m[0] == -1
+                got_limit = a.startswith("LIMIT ")
+                if not (a.startswith("OK ") or got_limit):
+                    bad.append((0, t, "plain", a.split()[0].lower() if a else "empty", a[:200]))
+                elif want_limit != got_limit:
+                    bad.append((0, t, "plain", "nesting-limit-not-as-declared", "%d nested blocks: model %s, implementation %s" % (n, "limit error" if want_limit else "no error", a[:60])))
+            dist["nesting_limit_cases"] = len(ns)
         except Exception as e:
             terr = "model runner: %r" % (e,)
 
